@@ -30,6 +30,8 @@ def cases(tier):
         for ob in ('wrapped-vector', 'symmetry', 'lattice', 'inv-flag'):
             cs.append({'name': '%s/%s/point' % (box, ob), 'box': box, 'ob': ob, 'arg': 'point'})
     cs.append({'name': 'ortho/wrapped-vector/residues', 'box': 'ortho', 'ob': 'wrapped-vector', 'arg': 'residue'})
+    for ob in ('wrapped-vector', 'inv-flag', 'lattice'):
+        cs.append({'name': 'triu/%s/point' % ob, 'box': 'triu', 'ob': ob, 'arg': 'point'})
     for box in ('ortho', 'tric'):
         cs.append({'name': '%s/mutated-box/point' % box, 'box': box, 'ob': 'mutated-box', 'arg': 'point'})
     if tier == 'thorough':
@@ -52,7 +54,9 @@ def _box(kind, ctx):
         a, b, c, d, e, f = [z3.Real('B' + n) for n in 'abcdef']
         for l in (a, c, f):
             ctx.assume(l > 0)
-        B = [[a, 0, 0], [b, c, 0], [d, e, f]]
+        # 'tric': GROMACS lower-triangular form; 'triu': the transposed (upper-triangular) form - a non-singular box
+        # that is not in the GROMACS convention (the statement speaks of every non-singular box)
+        B = [[a, 0, 0], [b, c, 0], [d, e, f]] if kind == 'tric' else [[a, b, d], [0, c, e], [0, 0, f]]
         names = {'B' + n: v for n, v in zip('abcdef', (a, b, c, d, e, f))}
     arr = np.array([[SymReal(x) if not isinstance(x, int) else x for x in row] for row in B], dtype=object)
     return arr, B, names
@@ -198,7 +202,16 @@ def run_case(case):
         f = [e for e, k in res['rints']]
         k = [z3.ToReal(kk) for e, kk in res['rints']]
         if len(f) != 3:
-            records.append({'name': 'three roundings observed', 'status': 'error', 'secs': 0, 'detail': str(len(f))})
+            # this path of the code did not wrap three fractional coordinates (e.g. an early exit): the returned value must still
+            # be the norm of (f - k).B for the harness' own fractional coordinates f = sep.B^-1 and nearest integers k
+            from symx.core import SymReal as _SR
+            Bn = np.array([[_SR(bx(j, i)) for i in range(3)] for j in range(3)], dtype=object)
+            Binv = npx.NPProxy().linalg.inv(Bn)
+            fo = [sum(sep[i] * expr(Binv[i][j]) for i in range(3)) for j in range(3)]
+            ko = [z3.Int('kown%d' % j) for j in range(3)]
+            hyp = [z3.And(fo[j] - z3.ToReal(ko[j]) < z3.RealVal('1/2'), fo[j] - z3.ToReal(ko[j]) > -z3.RealVal('1/2')) for j in range(3)]
+            want = sum((sum((fo[j] - z3.ToReal(ko[j])) * bx(j, i) for j in range(3))) ** 2 for i in range(3))
+            oblig(ctx, 'path without three roundings: |returned|^2 = |(f - nearest integer).B|^2 for f = sep.B^-1', res['rad'] == want, hyp, wkind='wrapped-vector')
             continue
         # let-abstraction (DESIGN 2.3 rule 4): the three fractional coordinates (large rational functions of the
         # inputs) become fresh reals g_j; ToReal(k_j) fresh reals too where integrality is not needed
@@ -285,6 +298,8 @@ def replay(w):
     Y = np.array([[v['y%d_%d' % (a, i)] for i in range(3)] for a in range(nat)])
     if w['box'] == 'ortho':
         B = np.diag([v['L0'], v['L1'], v['L2']])
+    elif w['box'] == 'triu':
+        B = np.array([[v['Ba'], v['Bb'], v['Bd']], [0, v['Bc'], v['Be']], [0, 0, v['Bf']]])
     else:
         B = np.array([[v['Ba'], 0, 0], [v['Bb'], v['Bc'], 0], [v['Bd'], v['Be'], v['Bf']]])
     mk = lambda P: Residue([AtomGro([1, 'A', 'C%d' % a, a + 1, P[a][0], P[a][1], P[a][2]]) for a in range(len(P))])
@@ -346,3 +361,27 @@ def replay(w):
     bad = sorted(set(bad))
     return {'reproduced': bool(bad), 'what': 'distance_to (%s box%s): %s' % (w['box'], ', box array changed in place between calls' if mutated else '', '; '.join(bad)),
             'detail': {'x': X.tolist(), 'y': Y.tolist(), 'box': B.tolist(), 'd': float(d)}}
+
+
+def fallback_probes(case):
+    """Concrete probe battery (used only when a changed distance_to can no longer be executed symbolically): fixed boxes of
+    each kind, fixed separations, all checks of replay() through the public API."""
+    records = []
+    boxes = {'ortho': {'L0': [3, 1], 'L1': [5, 2], 'L2': [7, 4]},
+             'tric': {'Ba': [3, 1], 'Bb': [1, 1], 'Bc': [5, 2], 'Bd': [-1, 2], 'Be': [3, 4], 'Bf': [2, 1]},
+             'triu': {'Ba': [3, 1], 'Bb': [1, 1], 'Bc': [5, 2], 'Bd': [-1, 2], 'Be': [3, 4], 'Bf': [2, 1]}}
+    for kind, bvals in boxes.items():
+        for arg in ('point', 'residue'):
+            nat = 1 if arg == 'point' else 2
+            inputs = dict(bvals)
+            for a in range(nat):
+                for i in range(3):
+                    inputs['x%d_%d' % (a, i)] = [1 + a + i, 4]
+                    inputs['y%d_%d' % (a, i)] = [7 * (i + 1) + 3 * a, 8]
+            w = {'kind': 'probe', 'box': kind, 'arg': arg, 'inputs': inputs}
+            r = replay(w)
+            rec = {'name': 'fallback probes (concrete): %s box, %s argument' % (kind, arg), 'status': 'sat' if r['reproduced'] else 'validated', 'secs': 0}
+            if r['reproduced']:
+                rec['witness'] = w
+            records.append(rec)
+    return records
